@@ -39,6 +39,10 @@ pub struct Node {
     pub lineage: Arc<Vec<Header>>,
     /// part of the state key: 1 after a restart, so that the continuation of a rebuilt state is explored in its own right
     pub salt: u8,
+    /// the last sealed state on the path (the block a node would find on disk) ...
+    pub anchor: Option<Arc<Sealed>>,
+    /// ... and the batches accepted since it was opened, in order: what a *fresh twin* of an open node is rebuilt from
+    pub since: Arc<Vec<Vec<Transaction>>>,
 }
 
 #[derive(Clone, Debug)]
@@ -103,7 +107,11 @@ impl Node {
         *h.finalize().as_bytes()
     }
     pub fn new_root(real: Real, model: RefState, label: String, root: Value, lineage: Vec<Header>) -> Node {
-        Node { real, model, link: Arc::new(Link { prev: None, label, action: None, root: Some(root), len: 1 }), lineage: Arc::new(lineage), salt: 0 }
+        let anchor = match &real {
+            Real::Sealed(s) => Some(Arc::new(s.clone())),
+            Real::Open(_) => None,
+        };
+        Node { real, model, link: Arc::new(Link { prev: None, label, action: None, root: Some(root), len: 1 }), lineage: Arc::new(lineage), salt: 0, anchor, since: Arc::new(vec![]) }
     }
     /// Labels of the path, oldest first.
     pub fn labels(&self) -> Vec<String> {
@@ -135,7 +143,37 @@ impl Node {
         }
         let salt = if matches!(a, Action::Restart) { 1 } else { self.salt };
         let link = Arc::new(Link { prev: Some(self.link.clone()), label: a.label(), action: Some(a.clone()), root: None, len: self.link.len + 1 });
-        Node { real, model, link, lineage, salt }
+        let (anchor, since) = match (&real, a) {
+            (Real::Sealed(s), _) => (Some(Arc::new(s.clone())), Arc::new(vec![])),
+            (Real::Open(_), Action::Open) => (self.anchor.clone(), Arc::new(vec![])),
+            (Real::Open(_), _) => (self.anchor.clone(), self.since.clone()),
+        };
+        Node { real, model, link, lineage, salt, anchor, since }
+    }
+    /// The node after an accepted batch remembers the batch (for its fresh twin).
+    fn with_batch(mut self, txs: &[Transaction]) -> Node {
+        let mut v = (*self.since).clone();
+        v.push(txs.to_vec());
+        self.since = Arc::new(v);
+        self
+    }
+    /// A fresh twin of an open node: the last sealed state read back from disk (block bytes, stake set rebuilt from its
+    /// documents - every in-memory companion of the running node's values is built anew), opened, and given the batches this
+    /// node accepted, in order.  None when the node has no sealed ancestor or the twin refuses one of those batches.
+    pub fn fresh_twin(&self) -> Option<St> {
+        let anchor = self.anchor.as_ref()?;
+        let since = self.since.clone();
+        guard(move || {
+            let mut u = restart_from_disk(anchor).next_unsealed();
+            for b in since.iter() {
+                if u.apply_tx_batch(b).is_err() {
+                    return None;
+                }
+            }
+            Some(u)
+        })
+        .ok()
+        .flatten()
     }
     pub fn replay_json(&self, next: Option<&Action>) -> Value {
         let mut t = vec![];
@@ -588,6 +626,36 @@ impl<'a> Engine<'a> {
                 }
                 if mres.is_ok() {
                     run.outcome(&format!("batch:stricter-than-model:{}", err_name(&e)));
+                    // The statements allow the code to refuse more than the model - but not to refuse *here* what the same state
+                    // accepts elsewhere.  A fresh twin of this node (its last block read back from disk, the same accepted batches)
+                    // is given the batch: if it accepts, the refusal comes from something no header commits to - what refused
+                    // batches, discarded copies or sibling states left behind (C02: a lost coin, rejection not a no-op; C03: the
+                    // verdict is a function of state and batch; C08: the rebuilt state accepts and rejects the same inputs).
+                    match n.fresh_twin() {
+                        None => run.outcome("fresh-twin:not-available"),
+                        Some(mut twin) => {
+                            let txs2 = txs.to_vec();
+                            match guard(move || twin.apply_tx_batch(&txs2)) {
+                                Ok(Ok(())) => {
+                                    run.outcome("fresh-twin:accepts-what-this-node-refuses");
+                                    for p in ["C02", "C03", "C08"] {
+                                        run.violation(
+                                            p,
+                                            format!("refused-here-accepted-by-a-fresh-twin/{}/{}", err_name(&e), kinds),
+                                            format!(
+                                                "[{}] is refused ({}) after [{}], but a node rebuilt from the last block on disk that accepted the same batches since accepts it: the refusal depends on something outside the committed state",
+                                                label,
+                                                err_name(&e),
+                                                n.path_str()
+                                            ),
+                                            n.replay_json(Some(a)),
+                                        );
+                                    }
+                                }
+                                _ => run.outcome("fresh-twin:refuses-as-well"),
+                            }
+                        }
+                    }
                     // C13: a coin is locked only by a registered, unexpired stake of its creating transaction
                     if matches!(e, StateError::CoinLocked) && n.model.rules().stake_lock {
                         let batch_stakes: BTreeSet<_> = txs.iter().filter(|t| t.kind == TxKind::Stake).map(|t| t.hash_nosigs()).collect();
@@ -658,7 +726,7 @@ impl<'a> Engine<'a> {
                     for tx in txs {
                         m.block_txs.insert(tx.hash_nosigs(), tx.clone());
                     }
-                    let child = n.child(Real::Open(next), m, a);
+                    let child = n.child(Real::Open(next), m, a).with_batch(txs);
                     let after = observe(&child);
                     if after.coins == model_coin_entries(&child.model) {
                         return StepOut::Next(child);
@@ -669,7 +737,7 @@ impl<'a> Engine<'a> {
             }
             (Ok(()), Ok(model)) => {
                 run.outcome("batch:accepted");
-                let child = n.child(Real::Open(next), model, a);
+                let child = n.child(Real::Open(next), model, a).with_batch(txs);
                 let after = observe(&child);
                 let mut ok = true;
                 // C02: exact coin set
@@ -760,9 +828,13 @@ impl<'a> Engine<'a> {
             let al = allowed.get(d).cloned().unwrap_or_default();
             if *v > &b + &al {
                 let kinds: BTreeSet<String> = txs.iter().map(|t| format!("{}", t.kind)).collect();
+                // ERG created by a mint whose "proof" is only refused for not being bound to its root is named as such (it is the
+                // known defect of the proof verifier, DESIGN §7-AA; any other ERG out of nothing keeps the general class)
+                let lookup = |id: &CoinID| n.model.coins.get(id).cloned();
+                let unbound = *d == Denom::Erg && !txs.is_empty() && txs.iter().filter(|t| t.kind == TxKind::DoscMint).all(|t| n.model.dosc_reject_reason(t, &lookup, ctx) == Some("doscmint:proof-labels-not-bound-to-the-root")) && txs.iter().any(|t| t.kind == TxKind::DoscMint);
                 run.violation(
                     "C01",
-                    format!("batch-creates-value/{}/{}", denom_name(d, &liq), kinds.into_iter().collect::<Vec<_>>().join("+")),
+                    format!("batch-creates-value/{}/{}{}", denom_name(d, &liq), kinds.into_iter().collect::<Vec<_>>().join("+"), if unbound { "/proof-labels-not-bound-to-the-root" } else { "" }),
                     format!("after [{}] ; [{}]: supply of {:?} went {} -> {} (allowed issuance {})", n.path_str(), a.label(), d, b, v, al),
                     n.replay_json(Some(a)),
                 );
@@ -1153,9 +1225,9 @@ fn dosc_allowance(m: &RefState, tx: &Transaction, lookup: &dyn Fn(&CoinID) -> Op
     }
     let seed = (ctx.header_at)(cdh.height.0)?;
     let puzzle = tmelcrypt::hash_keyed(seed.hash(), stdcode::serialize(&first).unwrap());
-    let proof = melpow::Proof::from_bytes(&proof_bytes)?;
-    let legacy = std::panic::catch_unwind(std::panic::AssertUnwindSafe(|| proof.verify(&puzzle, difficulty as usize, LegacyHash))).unwrap_or(false);
-    let tip910 = if legacy { false } else { std::panic::catch_unwind(std::panic::AssertUnwindSafe(|| proof.verify(&puzzle, difficulty as usize, Tip910Hash))).unwrap_or(false) };
+    use crate::refpow::{hash_legacy, hash_tip910, ref_pow_verify, PowVerdict};
+    let legacy = ref_pow_verify(&proof_bytes, &puzzle.0, difficulty as usize, &hash_legacy) == PowVerdict::Valid;
+    let tip910 = !legacy && ref_pow_verify(&proof_bytes, &puzzle.0, difficulty as usize, &hash_tip910) == PowVerdict::Valid;
     if !legacy && !tip910 {
         return None;
     }
